@@ -265,6 +265,10 @@ func (c10) Run(input any) kit.Case {
 		e := realExperiment(in.Exp, in.EmptyNotNil)
 		ts := realTrials(in.Trials, in.EmptyNotNil)
 		inst := newSuggestion(in.Sug, in.EarlyInSug, in.EmptyNotNil)
+		// like GetOrCreateSuggestion: the Suggestion's spec carries a copy of the experiment's algorithm (settings included)
+		if e.Spec.Algorithm != nil {
+			inst.Spec.Algorithm = e.Spec.Algorithm.DeepCopy()
+		}
 		ce, cts := cExperiment(e), cTrials(ts)
 		reply := in.Reply
 		if in.ReplyNoAlgo {
